@@ -23,6 +23,11 @@ Model: a program is a list of templates; an instruction is
 * `pick i` — ElemChoose.cpp:95-158: `startElement` evaluates the tests and returns the one `xsl:when` /
   `xsl:otherwise` child to run (child `i`, or none when `i` is out of range); `getNextChildElemToExecute`
   returns 0;
+* `uses ts` — ElemUse.cpp:95-200 (literal result elements, xsl:element, xsl:copy and xsl:attribute-set with
+  `use-attribute-sets`): pushes itself on the invoker stack, runs the named attribute sets `ts` (top-level
+  elements whose `getInvoker` is the stack top, like templates), then its own children;
+  `getNextChildElemToExecute` first asks for the next attribute set, and when the element that just ended *is* an
+  attribute set and there is none left, starts the first child; `endElement` pops the invoker;
 * `apply ts` — ElemApplyTemplates.cpp:133-260: pushes itself on the invoker stack, runs its with-param
   children, then for each selected node the template found for it (`ts`, one template index per node);
   when a *template* ends it looks up the next one (`findNextTemplateToExecute`).
@@ -35,6 +40,7 @@ the `ElemTemplateElement*` with its parent / sibling pointers.  Core Lean only.
 namespace XalanModel.C01.Walker
 
 inductive Kind | leaf | block | call (target : Nat) | loop (n : Nat) | apply (targets : List Nat) | pick (i : Nat)
+  | uses (sets : List Nat)
 deriving DecidableEq, Repr, Inhabited
 
 inductive Node | mk (kind : Kind) (kids : List Node)
@@ -84,6 +90,10 @@ def recBody (P : Prog) : Nat → Addr → Option (List Ev)
         if i < n.kids.length then
           (recBody P f (child a i)).map fun c => Ev.start a :: (c ++ [Ev.stop (child a i)])
         else some [.start a]
+      | .uses ts =>
+        match recTemplates P f ts, recKids P f a 0 n.kids.length with
+        | some bs, some ks => some (Ev.start a :: (bs ++ ks))
+        | _, _ => none
 def recKids (P : Prog) : Nat → Addr → Nat → Nat → Option (List Ev)
   | 0, _, _, _ => none
   | f+1, a, i, m =>
@@ -129,12 +139,14 @@ def pushIf (k : Kind) (a : Addr) (stk : List (Option Addr)) : List (Option Addr)
   match k with
   | .call _ => some a :: stk
   | .apply _ => some a :: stk
+  | .uses _ => some a :: stk
   | _ => stk
 
 def popIf (k : Kind) (stk : List (Option Addr)) : List (Option Addr) :=
   match k with
   | .call _ => stk.tail
   | .apply _ => stk.tail
+  | .uses _ => stk.tail
   | _ => stk
 
 /-- `getNextNodeToTransform` on the innermost node list of size `n` -/
@@ -166,12 +178,17 @@ def startNext (n : Node) (a : Addr) (its : List Nat) : Option Addr × List Nat :
     if n.kids.isEmpty then nextTemplate ts (0 :: its)
     else (some (child a 0), its)
   | .pick i => (if i < n.kids.length then some (child a i) else none, its)
+  | .uses ts =>
+    ((match (nextTemplate ts (0 :: its)).1 with
+      | some t => some t
+      | none => if n.kids.isEmpty then none else some (child a 0)), (nextTemplate ts (0 :: its)).2)
 
 /-- node-list stack effect of `endElement` -/
 def popIters (n : Node) (its : List Nat) : List Nat :=
   match n.kind with
   | .loop _ => if n.kids.isEmpty then its else its.tail
   | .apply _ => its.tail
+  | .uses _ => its.tail
   | _ => its
 
 def getInvoker (a : Addr) (stk : List (Option Addr)) : Option Addr :=
@@ -205,6 +222,13 @@ def getNextChild (P : Prog) (inv cur : Addr) (its : List Nat) : Option Addr × L
         let (more, its') := nextNode r its
         (if more then some (child inv 0) else none, its')
     | .pick _ => (none, its)
+    | .uses ts =>
+      ((match (nextTemplate ts its).1 with
+        | some t => some t
+        | none =>
+          match cur.2 with
+          | [] => if n.kids.isEmpty then none else some (child inv 0)
+          | _ :: _ => nextSibling P cur), (nextTemplate ts its).2)
     | .apply ts =>
       match cur.2 with
       | [] => nextTemplate ts its
@@ -246,6 +270,9 @@ def execute (P : Prog) (n : Nat) (t0 : Nat) (stk : List (Option Addr)) (its : Li
     Option (List Ev × List (Option Addr) × List Nat) :=
   let s := iter P n ⟨.starting (t0, []), none :: stk, its, []⟩
   if s.phase = .done then some (s.trace, s.stack.tail, s.iters) else none
+
+
+
 
 
 
